@@ -644,7 +644,7 @@ func (fr *Frame) appendOp(ctx *callCtx) Val {
 	n := e.vc.define("alen", "Int", app("slen", s.S))
 	// fast path: appending a one-element varargs slice -> single store
 	newArr := e.vc.fresh("apparr", "(Array Int "+es+")")
-	e.vc.assume(fmt.Sprintf("(forall ((j Int)) (! (= (select %s j) (ite (< j %s) (select %s (+ (soff %s) j)) (select %s (+ %s (- j %s))))) :pattern ((select %s j))))",
+	e.vc.assume(fmt.Sprintf("(forall ((j Int)) (! (= (select %s j) (ite (< j %s) (select %s (idx (soff %s) j)) (select %s (idx %s (- j %s))))) :pattern ((select %s j))))",
 		newArr, n, olds, s.S, xsArr, xsOff, n, newArr))
 	e.setHeap(st, hn, hs, app("store", h, ref, newArr))
 	return Val{S: e.vc.define("app", "Slice", app("mk_slice", ref, "0", app("+", n, xsLen))), T: ctx.rt}
@@ -668,7 +668,7 @@ func (fr *Frame) copyOp(ctx *callCtx) Val {
 	n := e.vc.define("ncopy", "Int", app("imin", app("slen", dst.S), srcLen))
 	old := app("select", h, app("sptr", dst.S))
 	newArr := e.vc.fresh("cparr", "(Array Int "+es+")")
-	e.vc.assume(fmt.Sprintf("(forall ((j Int)) (! (= (select %s j) (ite (and (<= (soff %s) j) (< j (+ (soff %s) %s))) (select %s (+ %s (- j (soff %s)))) (select %s j))) :pattern ((select %s j))))",
+	e.vc.assume(fmt.Sprintf("(forall ((j Int)) (! (= (select %s j) (ite (and (<= (soff %s) j) (< j (+ (soff %s) %s))) (select %s (idx %s (- j (soff %s)))) (select %s j))) :pattern ((select %s j))))",
 		newArr, dst.S, dst.S, n, srcArr, srcOff, dst.S, old, newArr))
 	e.setHeap(st, hn, hs, app("store", h, app("sptr", dst.S), newArr))
 	if kindOf(sl.Elem()) == kInt && kindOf(src.T) == kSlice {
